@@ -5,6 +5,10 @@ VERIF = os.path.dirname(os.path.dirname(os.path.abspath(__file__)))
 ALL = ["C%02d" % i for i in range(1, 21)]
 
 CLAIMED = {
+ "C11": dict(
+    text="Generated dies (lattice, blockages / specialised / fixed regions) refined with generated aspect-ratio limits (half of them in [1.42, 2), where the count-driven phase matters) and counts 1..60, and empty dies gridded 1..8 x 1..8; oracle: count reached, every new region inside exactly one former refinable region with the same tag, children tile their parent, every ratio <= r, blockages and fixed regions untouched (same objects, same geometry).",
+    note="Trusted: exact geometry on the float results taken as exact reals, relative tolerance 1e-9 (1e-12 on the ratio). Dies without refinable region and initial_grid(1,1) are outside the domain.",
+    technique="property-based testing (Hypothesis) with a tiling/containment invariant oracle", ref="4/C11"),
  "C01": dict(
     text="Generated die descriptions on dyadic and decimal lattices (regions and fixed netlist rectangles packed by construction so that they touch each other and the border; tree / YAML text / file / WxH forms), judged in Fraction arithmetic: reported regions inside the die, pairwise disjoint, areas summing to the die, every Hanan cell of the exact description covered exactly once, inputs reported unchanged with their tag; and the same descriptions with one injected overlap (>= one lattice cell) or overhang (>= one unit) must be rejected.",
     note="Trusted: exact geometry module. Float results compared with 1e-9 relative tolerances; rejection = any exception. Valid descriptions include decimal steps (0.1, 0.3, 0.0025, ...) on small dies where rounding shows.",
